@@ -298,6 +298,7 @@ func (c *tunnelChannel) newStream(ctx context.Context, clientStreams, serverStre
 	if err != nil {
 		return nil, err
 	}
+	verifYield("client.newStream.allocated")
 	err = c.stream.Send(&tunnelpb.ClientToServer{
 		StreamId: str.streamID,
 		Frame: &tunnelpb.ClientToServer_NewStream{
@@ -505,6 +506,7 @@ func (c *tunnelChannel) recvLoop() {
 			return
 		}
 
+		verifYield("client.recv.gotFrame")
 		str, err := c.getStream(in.StreamId)
 		if err != nil {
 			c.close(err)
@@ -552,6 +554,7 @@ func (c *tunnelChannel) close(err error) bool {
 	if c.tearDown != nil {
 		c.tearDown(c)
 	}
+	verifYield("client.close.afterTearDown")
 
 	c.mu.Lock()
 	defer c.mu.Unlock()
@@ -833,6 +836,7 @@ func (st *tunnelClientStream) cancelStream(err error) {
 		// stream already closed
 		return
 	}
+	verifYield("client.cancel.beforeReceiverCancel")
 	st.receiver.cancel()
 	// Let server know, too.
 	go func() {
@@ -858,9 +862,11 @@ func (st *tunnelClientStream) finishStream(err error, trailers metadata.MD) bool
 		// done already set? then RPC already finished
 		return false
 	}
+	verifYield("client.finish.afterDone")
 	defer st.cancel()
 	st.ch.removeStream(st.streamID)
 	st.receiver.close()
+	verifYield("client.finish.betweenPublish")
 
 	st.metaMu.Lock()
 	defer st.metaMu.Unlock()
